@@ -6,7 +6,7 @@
    Criterion (squarefree form): N > 1, F | N-1, N < F*F, F = r_1 * ... * r_k with distinct primes r_i, and for each
    r_i a witness a_i with a_i^(N-1) = 1 (mod N) and gcd(a_i^((N-1)/r_i) - 1, N) = 1. Then N is prime. *)
 From Coq Require Import ZArith Znumtheory Zpow_facts List Lia Bool.
-From Strand Require Import Base.ZUtil Base.Fermat.
+From Strand Require Import Base.ZUtil Base.Fermat Base.Primes.
 Import ListNotations.
 Open Scope Z_scope.
 
@@ -229,3 +229,33 @@ Proof.
   - apply Z.ltb_lt. assumption.
 Qed.
 Print Assumptions pock_checkb_sound.
+
+(* ---------------------------------------------------------------- certificate chains *)
+(* A chain lists (N, certificate) in dependency order: every prime r used in a certificate is either small
+   (below 2^16, certified by trial division) or was certified earlier in the chain. *)
+(* [if], not [&&]: vm_compute is call-by-value and must never start trial division on a large number *)
+Definition small_primeb (r : Z) : bool := if r <? 65536 then prime_check r else false.
+
+Fixpoint chain_checkb (pw : Z -> Z -> Z -> Z) (known : list Z) (chain : list (Z * list (Z * Z))) : bool :=
+  match chain with
+  | [] => true
+  | (N, cert) :: rest =>
+      forallb (fun r => small_primeb r || existsb (Z.eqb r) known) (map fst cert)
+      && pock_checkb pw N cert && chain_checkb pw (N :: known) rest
+  end.
+
+Theorem chain_checkb_sound pw : (forall b e m, m <> 0 -> pw b e m = b ^ e mod m) ->
+  forall chain known, Forall prime known -> chain_checkb pw known chain = true -> Forall prime (map fst chain).
+Proof.
+  intros Hpw. induction chain as [|[N cert] rest IH]; intros known Hk H; cbn [map fst]; [constructor|].
+  cbn [chain_checkb] in H. apply andb_true_iff in H. destruct H as [H H3]. apply andb_true_iff in H. destruct H as [H1 H2].
+  assert (HN : prime N).
+  { apply (pock_checkb_sound pw N cert Hpw); [|exact H2].
+    rewrite Forall_forall. intros r Hr. rewrite forallb_forall in H1. specialize (H1 r Hr).
+    apply orb_true_iff in H1. destruct H1 as [Hs|He].
+    - unfold small_primeb in Hs. destruct (r <? 65536); [|discriminate]. apply prime_check_sound. exact Hs.
+    - apply existsb_exists in He. destruct He as (r' & Hin & Heq). apply Z.eqb_eq in Heq. subst r'.
+      rewrite Forall_forall in Hk. apply Hk, Hin. }
+  constructor; [exact HN|]. apply (IH (N :: known)); [constructor; assumption|exact H3].
+Qed.
+Print Assumptions chain_checkb_sound.
